@@ -439,6 +439,51 @@ func (c *Ctx) lenMinusRule(rule string, fns []*ssa.Function, suppress map[string
 	c.S.OK(rule, "len(x)-k accesses", "", fmt.Sprintf("%d accesses at len(x)-k examined", n), false)
 }
 
+// sliceToArrayRule (T24): a conversion of a slice to an array or array pointer ([N]T(x), (*[N]T)(x)) panics when
+// len(x) < N. Every such conversion in fns needs len(x) ≥ N established for that very slice: by construction
+// (x[a:a+N], make of a constant), by a dominating condition, or — x a parameter of an unexported function — by
+// every caller. Returns the number of conversions examined.
+func (c *Ctx) sliceToArrayRule(rule string, fns []*ssa.Function) int {
+	n := 0
+	perFn := map[*ssa.Function]int{}
+	for _, f := range fns {
+		for _, b := range f.Blocks {
+			for _, in := range b.Instrs {
+				cv, ok := in.(*ssa.SliceToArrayPointer)
+				if !ok {
+					continue
+				}
+				pt, ok := cv.Type().Underlying().(*types.Pointer)
+				if !ok {
+					continue
+				}
+				at, ok := pt.Elem().Underlying().(*types.Array)
+				if !ok {
+					continue
+				}
+				n++
+				perFn[f]++
+				need := at.Len()
+				have := c.minLenLifted(b, cv.X, 0)
+				construct := fmt.Sprintf("%s:conversion #%d of a %s to [%d]", load.FuncName(f), perFn[f], types.TypeString(cv.X.Type(), func(p *types.Package) string { return p.Name() }), need)
+				at0 := cv.Pos()
+				for _, later := range b.Instrs {
+					if !at0.IsValid() && later.Pos().IsValid() {
+						at0 = later.Pos()
+					}
+				}
+				if !at0.IsValid() {
+					at0 = f.Pos()
+				}
+				c.S.Check(have >= need, rule, construct, c.pos(at0), fmt.Sprintf("len ≥ %d established before the conversion", have),
+					fmt.Sprintf("a slice is converted to an array of %d elements, but nothing establishes len ≥ %d for it (known: ≥ %d): a shorter value panics instead of being refused", need, need, have))
+			}
+		}
+	}
+	c.S.Count("slice_to_array_conversions", n)
+	return n
+}
+
 // upperBoundedBefore: block b is dominated by an edge on which v (or the value
 // it was converted from, or another load of the same field) is known to be
 // below / at most something.
